@@ -56,3 +56,48 @@ class Profile(object):
                 return ('%s: %d rows, %d missing: comment %r, warning expected: %s'
                         % (attr, n, m, row['Comments'], m > 0))
         return None
+
+
+@oracle('py_stringsimjoin.utils.missing_value_handler.get_pairs_with_missing_value')
+class MissingPairs(object):
+    def inputs(self, case, rng, model, tier):
+        for _ in range(300 if tier != 'thorough' else 3000):
+            nl, nr = rng.randint(0, 5), rng.randint(0, 5)
+            pm = rng.choice([0.0, 0.3, 0.6, 1.0])
+            mk = lambda: None if rng.random() < pm else rng.choice(['a b', 'c', '', 'a'])
+            yield dict(l=[mk() for _ in range(nl)], r=[mk() for _ in range(nr)], score=rng.random() < 0.5)
+
+    def check(self, case, a):
+        import math
+        pd = _pd()
+        from py_stringsimjoin.utils.missing_value_handler import get_pairs_with_missing_value
+        ll, rl = (case or 'None-None').split('-')[0] == 'list', (case or 'None-None').split('-')[1] == 'list'
+        lt = pd.DataFrame({'x': pd.Series(['x%d' % i for i in range(len(a['l']))], dtype=object),
+                           'id': pd.Series(['l%d' % i for i in range(len(a['l']))], dtype=object),
+                           'v': pd.Series(a['l'], dtype=object)})
+        rt = pd.DataFrame({'rid': pd.Series(['r%d' % i for i in range(len(a['r']))], dtype=object),
+                           'w': pd.Series(a['r'], dtype=object)})
+        louts, routs = (['x', 'v'] if ll else None), (['w'] if rl else None)
+        out = get_pairs_with_missing_value(lt, rt, 'id', 'rid', 'v', 'w', louts, routs, 'l_', 'r_', a['score'], False)
+        want_cols = ['l_id', 'r_rid'] + (['l_x', 'l_v'] if ll else []) + (['r_w'] if rl else []) + \
+                    (['_sim_score'] if a['score'] else [])
+        if list(out.columns) != want_cols:
+            return 'columns %r, expected %r' % (list(out.columns), want_cols)
+        got = {}
+        for row in out.values.tolist():
+            k = (row[0], row[1])
+            if k in got:
+                return 'pair %r emitted twice' % (k,)
+            got[k] = row
+        miss = lambda v: v is None or (isinstance(v, float) and math.isnan(v))
+        for i, lv in enumerate(a['l']):
+            for j, rv in enumerate(a['r']):
+                k = ('l%d' % i, 'r%d' % j)
+                if miss(lv) or miss(rv):
+                    if k not in got:
+                        return 'pair %r with a missing value is absent (left %r, right %r)' % (k, lv, rv)
+                    if a['score'] and not miss(got[k][-1]):
+                        return 'pair %r: score %r is not NaN' % (k, got[k][-1])
+                elif k in got:
+                    return 'pair %r has no missing value but is present' % (k,)
+        return None
